@@ -2,6 +2,7 @@ package main
 
 import (
 	"bytes"
+	"database/sql"
 	"fmt"
 	"math/big"
 	"reflect"
@@ -234,6 +235,15 @@ func (v *Val) Build(order int) interface{} {
 			out = append(out, e.S)
 		}
 		return out
+	case "timeptr": // *time.Time; I = unix seconds, 0 = the zero time (a row's DeletedAt that was never set)
+		t := time.Time{}
+		if v.I != 0 {
+			t = time.Unix(v.I, 0).UTC()
+		}
+		return &t
+	case "row": // *Row: what a handler gets from its database layer
+		z, c := time.Time{}, time.Unix(1_700_000_000+v.I, 0).UTC()
+		return &Row{ID: int(v.I), DeletedAt: &z, CreatedAt: c, UpdatedAt: &c, Email: sql.NullString{String: v.S, Valid: v.S != ""}, Seats: sql.NullInt64{Int64: v.I, Valid: true}}
 	case "bigint": // *big.Int
 		return big.NewInt(v.I)
 	case "bigrat": // *big.Rat
@@ -315,6 +325,16 @@ func BuildCtx(v *Val, order int) map[string]interface{} {
 
 // snapshot renders any Go value by content, including slice elements up to cap, for the
 // "caller's data unchanged" oracle. Pointers are followed and never printed.
+// Row is a typical database row: nullable columns as database/sql wrappers, optional times as pointers.
+type Row struct {
+	ID        int
+	DeletedAt *time.Time
+	CreatedAt time.Time
+	UpdatedAt *time.Time
+	Email     sql.NullString
+	Seats     sql.NullInt64
+}
+
 func snapshot(x interface{}) string {
 	var sb strings.Builder
 	snap(&sb, reflect.ValueOf(x), 0, map[uintptr]bool{})
